@@ -144,6 +144,14 @@ func runC11(env *lib.Env, rep *lib.Report) {
 	refusing := alphaOpt{Tables: []string{"t1"}, Inserts: []int{1, 9}, Updates: true, FailingInsert: true}
 	cfgs = append(cfgs, histCfg{Name: "real/t1x8/refused-inserts", Opt: worldOpt{}, Seed: "t1x8", Alpha: refusing, Depth: d, TickChoice: true, Reopen: true, Crash: true, Walk: true, OnlyWalk: true},
 		histCfg{Name: "leaf3-int3/t1x30/refused-inserts", Opt: worldOpt{Leaf: 3, Internal: 3}, Seed: "t1x30", Alpha: refusing, Depth: d, TickChoice: true, Reopen: true, Crash: true, Walk: true, OnlyWalk: true})
+	// a page cache of a few pages (flushed after every statement): which pages are resident while a leaf or an
+	// interior page splits is decided by the cache; the tree on disk must come out the same
+	for _, cc := range []int{6, 8} {
+		cfgs = append(cfgs, histCfg{Name: fmt.Sprintf("leaf3-int3/t1x30/cache%d", cc), Opt: worldOpt{Leaf: 3, Internal: 3}, CacheAfterSeed: cc,
+			Seed: "t1x30", Alpha: alpha, Depth: d, Reopen: true, Walk: true, OnlyWalk: true})
+	}
+	cfgs = append(cfgs, histCfg{Name: "real/interleaved/cache6", Opt: worldOpt{}, CacheAfterSeed: 6,
+		Seed: "interleaved", Alpha: alpha, Depth: d, Reopen: true, Walk: true, OnlyWalk: true})
 	rep.Bounds["depth"] = d
 	rep.Bounds["crash bound"] = 1
 	rep.Bounds["configs"] = cfgNames(cfgs)
